@@ -109,7 +109,8 @@ claim('C09',
 
 claim('C16',
       'Bounded proof over the real vr32.c: slew set-up (set_step_step) and vr_set_io_ratio during a cross-fade (both streams reach the same ratio); per-frame stepping of the plain and cross-fade kernels poly_fir_u/d, poly_fir_fade_u/d; one real vr_process call across an octave boundary (stages -1<->0<->1, both directions; path-wise symbolic execution, kernels replaced at goto level): fade-in and fade-out streams keep the same ratio, slew rate and input instant, no undefined shift; forwarding of ratio/slew to every channel and refusal by constant-rate engines (real soxr.c).',
-      'Partial: audio statements (-80 dB residual, no audible discontinuity) not decided; stage switches above stage 1 repeat the 0<->1 arithmetic and are not separate obligations; slew lengths from a stated list, |target-step| < 2^20 (quick); remaining slew length constant in the stage-switch obligations.')
+      'Partial: audio statements (-80 dB residual, no audible discontinuity) not decided; stage switches above stage 1 repeat the 0<->1 arithmetic and are not separate obligations; slew lengths from a stated list, |target-step| < 2^20 (quick); remaining slew length constant in the stage-switch obligations.', technique='bounded model checking of the real C translation units (goto-cc + cbmc 6.11, SAT), symbolic inputs, unwinding assertions, vacuity witness, native ASan/UBSan replay of counterexamples; for the vr_process obligations: goto-instrument --replace-calls substitutes the sample-arithmetic leaf functions (stated per obligation) and cbmc explores path-wise (--paths lifo: one SAT query per path, every path of the bounded harness)')
+
 claim('C10',
       'Bounded proof (self-composition): real soxr_create snapshot vs real soxr_clear after ANY history over the abstract engine: every behaviour-relevant field of struct soxr and every engine-create argument equal the fresh state, nothing leaked. Process-wide VR coefficient tables: two real vr_init calls with symbolic gains (each with/without decimation stages) then one real vr_process call of the second instance: it applies its own gain (DC-gain semantics substituted at goto level for prepare_coefs / per-sample kernels / IIR pair).',
-      'Trusted: cbmc, goto-instrument; abstract engine; FFT-cache tables (bit-identity across cache growth) and the VR cross-fade table are not covered: that part of C10 is not claimed; dither seed excluded.')
+      'Trusted: cbmc, goto-instrument; abstract engine; FFT-cache tables (bit-identity across cache growth) and the VR cross-fade table are not covered: that part of C10 is not claimed; dither seed excluded.', technique='bounded model checking of the real C translation units (goto-cc + cbmc 6.11, SAT), symbolic inputs, unwinding assertions, vacuity witness, native ASan/UBSan replay of counterexamples; for the vr_process obligations: goto-instrument --replace-calls substitutes the sample-arithmetic leaf functions (stated per obligation) and cbmc explores path-wise (--paths lifo: one SAT query per path, every path of the bounded harness)')
